@@ -124,3 +124,73 @@ class Effects:
     @staticmethod
     def fields(e, adt_suffix):
         return {t[2] for t in e if t[0] == "field" and (t[1] == adt_suffix or t[1].endswith("::" + adt_suffix))}
+
+
+def display_only_fields(facts, eff, adt_suffix="AppCounters"):
+    """Fields of the ADT that can only influence WHEN/WHAT is printed, never the table or the counters (greatest fixpoint):
+    (1) every read of the field sits in an effect-free function (a pure predicate such as `is_time_to_refresh`), and
+    (2) at every call site of such a predicate the result is used only as a branch condition, and the calls controlled
+        by that branch have no effect other than output and stores to fields of this same set."""
+    from .cfg import CFG
+    from .mirq import DefUse, controlling_decisions, field_reads, operand_place
+    from .facts import callee_name
+    reads = field_reads(facts, adt_suffix)
+    by_field = {}
+    for r in reads:
+        by_field.setdefault(r["field"], set()).add(r["body"].name)
+    stored = {t[2] for n in eff.direct for t in eff.direct[n] if t[0] == "field" and t[1].split("::")[-1] == adt_suffix}
+    cand = set()
+    for f in stored | set(by_field):
+        readers = by_field.get(f, set())
+        if all(not eff.of(n) for n in readers):
+            cand.add(f)
+    changed = True
+    while changed and cand:
+        changed = False
+        allowed = lambda e: all(x[0] in ("stdout", "iowrite") or (x[0] == "field" and x[1].split("::")[-1] == adt_suffix and x[2] in cand) for x in e)
+        for f in sorted(cand):
+            ok = True
+            for pred in by_field.get(f, set()):
+                for c in facts.bodies.values():
+                    if c.kind == "promoted" or "::tests::" in c.name:
+                        continue
+                    sites = [(bb, t) for bb, t in c.calls() if callee_name(t) == pred]
+                    if not sites:
+                        continue
+                    cfg = CFG(c)
+                    for bb, t in sites:
+                        d = t["dest"]["local"]
+                        sw = []
+                        for bi, blk in enumerate(c.blocks):
+                            if blk["cleanup"]:
+                                continue
+                            for st in blk["stmts"]:
+                                if st["k"] == "assign" and _mentions(st["rv"], d):
+                                    ok = False
+                            tt = blk["term"]
+                            if tt["k"] == "switch":
+                                pl = operand_place(tt["discr"])
+                                if pl and pl["local"] == d:
+                                    sw.append(bi)
+                            elif tt["k"] == "call" and any((operand_place(a) or {}).get("local") == d for a in tt["args"]):
+                                ok = False
+                        for bi, tt in c.calls():
+                            e = eff.of_call(tt)
+                            if allowed(e):
+                                continue
+                            if any(dd[0] in sw for dd in controlling_decisions(c, cfg, bi)):
+                                ok = False
+            if not ok:
+                cand.discard(f)
+                changed = True
+    return cand
+
+
+def _mentions(o, local):
+    if isinstance(o, dict):
+        if set(o.keys()) == {"local", "proj"} and o["local"] == local:
+            return True
+        return any(_mentions(v, local) for v in o.values())
+    if isinstance(o, list):
+        return any(_mentions(v, local) for v in o)
+    return False
